@@ -20,10 +20,20 @@
 
     Assumed about what is external:
       - addresses and denoms are interned to [positive]; denoms are numbered in the lexical order
-        of their strings so that "sorted coins" means the same thing on both sides;
-      - the record suffix of several senders is SHA-256 of the sorted concatenated addresses; the
-        model uses the sorted address list itself (collision freedom of the hash, all addresses of
-        one length).  A single sender's suffix is the address (= the one-element sorted list);
+        of their strings so that "sorted coins" means the same thing on both sides.  Account
+        addresses may be 1..255 bytes long and createRecordSuffix cuts a SINGLE sender address that
+        is longer than 32 bytes down to its first 32 bytes, so the interning keeps that structure:
+        an id below 1000 is an address of at most 32 bytes, an id [1000 * c + j] is an address longer
+        than 32 bytes whose first 32 bytes have the id [c] ([c] is the id of the 32-byte account
+        with exactly those bytes when there is one, otherwise an id no account has); [trunc] is
+        that cut.  Receivers and suffix-index keys carry the full (length-prefixed) address;
+      - the record suffix of several senders is SHA-256 of the sorted concatenated FULL addresses;
+        the model uses the sorted address list itself (collision freedom of the hash; a hash is 32
+        bytes long and therefore never cut).  A single sender's suffix is [trunc] of the address.
+        GetQuarantineRecords passes every looked-up suffix (index entries and the named senders
+        themselves, de-duplicated on their full bytes) through CreateRecordKey again, which cuts
+        a named sender longer than 32 bytes: [key_sfx].  Index entries are always hashes of two
+        or more senders; an entry of another shape cannot exist and [idx_get] ignores it;
       - Simplify sorts the suffix list; the model only removes duplicates / the entries to remove.
         The order in which AcceptQuarantinedFunds / DeclineQuarantinedFunds walk the records cannot
         be observed: records have distinct keys, each record is handled on its own, and an error
@@ -179,8 +189,14 @@ Definition is_auto_decline (s : state) (to : addr) (froms : list addr) : bool :=
 (** ** Records *)
 Definition all_froms (r : qrec) : list addr := q_unacc r ++ q_acc r.
 Definition fully_accepted (r : qrec) : bool := match q_unacc r with [] => true | _ => false end.
-Definition mk_key (to : addr) (froms : list addr) : rkey := (to, sort froms).
 Definition is_multi (froms : list addr) : bool := match froms with _ :: _ :: _ => true | _ => false end.
+(* createRecordSuffix: the first 32 bytes of a single sender, the hash of several *)
+Definition trunc (a : addr) : addr := if Pos.ltb a 1000 then a else Z.to_pos (Z.pos a / 1000).
+Definition sfx_of (froms : list addr) : list addr :=
+  match froms with [f] => [trunc f] | _ => sort froms end.
+Definition mk_key (to : addr) (froms : list addr) : rkey := (to, sfx_of froms).
+(* CreateRecordKey(to, suffix) applied to an already known suffix *)
+Definition key_sfx (x : list addr) : list addr := match x with [f] => [trunc f] | _ => x end.
 
 (* QuarantineRecordSuffixIndex.Simplify(toRemove...) up to order *)
 Definition smem (x : list addr) (l : list (list addr)) : bool := existsb (addrs_eqb x) l.
@@ -193,7 +209,7 @@ Definition simplify (l rm : list (list addr)) : list (list addr) :=
   dedup (filter (fun x => negb (smem x rm)) l).
 
 Definition idx_get (i : list ((addr * addr) * list (list addr))) (to from : addr) : list (list addr) :=
-  match aget pair_eqb (to, from) i with Some l => l | None => [] end.
+  match aget pair_eqb (to, from) i with Some l => filter is_multi l | None => [] end.
 (* setQuarantineRecordSuffixIndex: an empty entry is deleted *)
 Definition idx_set (i : list ((addr * addr) * list (list addr))) (to from : addr) (v : list (list addr)) :=
   match v with
@@ -224,12 +240,13 @@ Definition get_record (s : state) (to : addr) (froms : list addr) : option qrec 
   aget rkey_eqb (mk_key to froms) (s_recs s).
 
 (* getQuarantineRecordSuffixes + GetQuarantineRecords: the records to [to] reachable from any of
-   [froms] through the suffix index, each once, with the key they are stored under *)
+   [froms] through the suffix index, with the key they are stored under; once per looked-up
+   suffix: two different named senders with the same first 32 bytes yield the same record twice *)
 Definition get_suffixes (s : state) (to : addr) (froms : list addr) : list (list addr) :=
   dedup (flat_map (fun f => idx_get (s_idx s) to f ++ [[f]]) froms).
 Definition get_records (s : state) (to : addr) (froms : list addr) : list (rkey * qrec) :=
-  flat_map (fun sfx => match aget rkey_eqb (to, sfx) (s_recs s) with
-                       | Some r => [((to, sfx), r)]
+  flat_map (fun sfx => match aget rkey_eqb (to, key_sfx sfx) (s_recs s) with
+                       | Some r => [((to, key_sfx sfx), r)]
                        | None => []
                        end) (get_suffixes s to froms).
 
